@@ -582,6 +582,24 @@ func c15CallSites(c c15Case) *vlib.Failure {
 		{`Fprintf(w, "%s", uint64) (wrong type)`, func() { Fprintf(w, "%s", u64) }},
 		{`Fprintf(w, "literal", string) (surplus argument)`, func() { Fprintf(w, "literal", str) }},
 		{`Printf("%d %s", int64, string) into the early buffer`, func() { Printf("%d %s", i64, str) }},
+		// arguments that live in the caller's frame, as the kernel passes them: a table signature
+		// (a slice of a local array), a short conversion, a string over local bytes
+		{`Fprintf(w, "%s", sig[:]) with sig a local [4]byte`, func() {
+			var sig [4]byte
+			for i := range sig {
+				sig[i] = 'A' + byte(u64>>(8*uint(i)))%26
+			}
+			Fprintf(w, "%s", sig[:])
+		}},
+		{`Fprintf(w, "[%s] %d", string(local[:n]), uint64)`, func() {
+			var local [8]byte
+			n := 1 + int(u64%8)
+			for i := 0; i < n; i++ {
+				local[i] = 'a' + byte(i)
+			}
+			Fprintf(w, "[%s] %d", string(local[:n]), u64)
+		}},
+		{`Fprintf(w, "%8s", []byte(short string))`, func() { Fprintf(w, "%8s", []byte(str[:1+int(u64%uint64(len(str)))%16])) }},
 	}
 	for _, s := range sites {
 		call := s.call
